@@ -39,10 +39,15 @@ class Hook:
         self.inner = None
         self.result = None
         self.busy = False
+        self.capture_at = None      # deferred mode: copy the context here
+        self.captured = None
 
     def reached(self):
         n = self.count
         self.count += 1
+        if n == self.capture_at:
+            import contextvars
+            self.captured = contextvars.copy_context()
         if self.inner is not None and n == self.fire_at and not self.busy:
             self.busy = True
             try:
@@ -113,16 +118,26 @@ class HookHandler(logging.Handler):
 
 LONG = 'k' * 140
 LONG2 = 'm' * 129
+KEPT = []       # objects an outer call encoded, kept alive for deferred work
+
+
+def _encode_again(p, obj):
+    if isinstance(obj, dict):
+        return p.encode.field_table(obj).hex()
+    return p.frame.marshal(obj, 3).hex()
 
 
 def outers(p):
     """(label, callable) - calls that reach application code mid-encode."""
     def header_long_key():
-        return p.frame.marshal(p.header.ContentHeader(
+        headers = {'a': 1, LONG: 'v', LONG2: [1], 'z': 'last',
+                   'n': {'deep': {LONG2 + 'y': 1}}}
+        obj = p.header.ContentHeader(
             0, 9, p.commands.Basic.Properties(
                 content_type='text/plain', content_encoding='gzip',
-                headers={'a': 1, LONG: 'v', LONG2: [1], 'z': 'last'},
-                delivery_mode=2, message_id='outer-id')), 3).hex()
+                headers=headers, delivery_mode=2, message_id='outer-id'))
+        KEPT.extend([obj, headers, headers['n']])
+        return p.frame.marshal(obj, 3).hex()
 
     def declare_long_key():
         return p.frame.marshal(p.commands.Queue.Declare(
@@ -278,6 +293,51 @@ def explore(ctx, outer_index):
                         _short(base_outer), _short(got_outer))
                 else:
                     ctx.outcome('ok')
+        # deferred work: at point k the application takes a copy of the
+        # current context (what asyncio's call_soon / create_task / to_thread
+        # do) and runs the other call LATER in that copy, when the outer call
+        # has returned and its objects are gone - or still alive (KEPT)
+        for k in range(points):
+            HOOK.inner, HOOK.capture_at, HOOK.count = None, k, 0
+            HOOK.captured = None
+            del KEPT[:]
+            _run(outer)
+            HOOK.capture_at = None
+            context = HOOK.captured
+            if context is None:
+                continue
+            deferred = list(enumerate(menu)) + [
+                (-1 - n, ('encode the very object the outer call encoded',
+                          (lambda o=o: _encode_again(p, o))))
+                for n, o in enumerate(list(KEPT))]
+            for j, (ilabel, inner) in deferred:
+                HOOK.count = 0
+                got = json.loads(json.dumps(context.run(_run, inner)))
+                if j >= 0:
+                    want = base_inner[j]
+                else:
+                    HOOK.count = 0
+                    want = json.loads(json.dumps(_run(inner)))
+                ctx.case(('deferred', outer_index, j, k), True,
+                         sample=lambda: {'outer': label,
+                                         'deferred_in_copied_context': ilabel,
+                                         'context_copied_at_callback': k})
+                ctx.calls()
+                ctx.valid()
+                if got != want:
+                    ctx.outcome('reentrancy-dependent')
+                    ctx.violation(
+                        'deferred|{}|{}|{}'.format(outer_index, j, k),
+                        '"{}": the application copied the context at the '
+                        '{}-th point where the call runs its code and ran '
+                        '"{}" in that copy after the call had returned: {} '
+                        'instead of {}'.format(label, k + 1, ilabel,
+                                               _short(got), _short(want)),
+                        {'kind': 'reentrant', 'outer': outer_index},
+                        _short(want), _short(got))
+                else:
+                    ctx.outcome('ok')
+        del KEPT[:]
         # the library must be as before afterwards
         HOOK.inner, HOOK.count = None, 0
         after = json.loads(json.dumps(_run(outer)))
